@@ -265,3 +265,14 @@ Lemma bind_setex {B} k ttl v (f : lval -> M B) st :
 Proof.
   unfold bind. rewrite redis_call_kzz. cbn [exec]. destruct (ttl <=? 0); reflexivity.
 Qed.
+
+Lemma lua_le_M a b : lua_le (znum a) (znum b) = ret (LBool (a <=? b)).
+Proof. change (ret (LBool (Qle_bool (inject_Z a) (inject_Z b))) = ret (LBool (a <=? b))). now rewrite Qle_bool_inject. Qed.
+Lemma lua_gt_M a b : lua_gt (znum a) (znum b) = ret (LBool (b <? a)).
+Proof. change (ret (LBool (qlt (inject_Z b) (inject_Z a))) = ret (LBool (b <? a))). now rewrite qlt_inject. Qed.
+
+(* one step of integer arithmetic / comparison, whatever operation comes next *)
+Ltac marith :=
+  first [ rewrite lua_sub_M | rewrite lua_add_M | rewrite lua_mul_M | rewrite lua_max_M | rewrite lua_min_M
+        | rewrite lua_ge_M | rewrite lua_le_M | rewrite lua_lt_M | rewrite lua_gt_M ];
+  rewrite bind_ret_l; cbv beta.
